@@ -57,7 +57,8 @@ def op (st : St) (toks : List String) : St × String :=
   | ["add", id, v] =>
     match id.toNat?, parseVec v with
     | some id, some v =>
-      if st.added.contains id then (st, "UNSUPPORTED readd") else
+      -- adding an id that is currently live is outside C01/C06's quantifier (duplicates)
+      if st.live.any (·.1 == id) then (st, "UNSUPPORTED add-of-live-id") else
       let (s', e) := Flat.step m st.s (.add id v)
       let live' := Flat.specStep m st.s.dim st.live (.add id v)
       let st' := { st with s := s', live := live', added := id :: st.added }
